@@ -17,6 +17,7 @@ package main
 //     Set-Cookie carries the configured attributes.
 
 import (
+	"sync/atomic"
 	"bytes"
 	"encoding/base64"
 	"fmt"
@@ -26,6 +27,7 @@ import (
 	"time"
 
 	"github.com/alicebob/miniredis/v2"
+	"github.com/alicebob/miniredis/v2/server"
 	"github.com/oauth2-proxy/oauth2-proxy/v7/pkg/apis/options"
 	sessionsapi "github.com/oauth2-proxy/oauth2-proxy/v7/pkg/apis/sessions"
 	"github.com/oauth2-proxy/oauth2-proxy/v7/pkg/sessions"
@@ -275,12 +277,20 @@ func init() {
 	registerSuite("savehist", func(c *suiteCtx) {
 		max := cookiestore.VerifMaxCookieLength
 		known := &cjKnownOnce{seen: map[string]bool{}}
+		var delFault atomic.Bool // the next DEL is answered with an error (one shot)
 		mr, err := miniredis.Run()
 		if err != nil {
 			c.violation("HARNESS", "miniredis: "+err.Error(), nil)
 			c.close(nil)
 			return
 		}
+		mr.Server().SetPreHook(func(p *server.Peer, cmd string, args ...string) bool {
+			if strings.ToUpper(cmd) == "DEL" && delFault.CompareAndSwap(true, false) {
+				p.WriteError("ERR verif: injected DEL fault")
+				return true
+			}
+			return false
+		})
 		defer mr.Close()
 
 		type nameSpec struct {
@@ -446,9 +456,20 @@ func init() {
 								}
 							}
 						} else {
-							if err := store.Clear(rw, req); err != nil {
+							// (Redis) now and then the store's delete fails: Clear reports the error, but the browser must still be
+							// told to drop the ticket — after a clear, nothing loads
+							faultedClear := redis && r.intn(4) == 0
+							if faultedClear {
+								delFault.Store(true)
+							}
+							err := store.Clear(rw, req)
+							delFault.Store(false)
+							if err != nil && !faultedClear {
 								c.violation("C11", "Clear failed: "+err.Error(), map[string]interface{}{"store": storeKind})
 								break
+							}
+							if faultedClear {
+								c.count("step:redis:clear-with-del-fault")
 							}
 						}
 						lines := rw.Result().Header.Values("Set-Cookie")
